@@ -55,10 +55,18 @@ type signCall struct {
 	parent, state, body phase0.Root
 	sig                 phase0.BLSSignature
 	err                 error
+	dead                bool // called with a context that had already ended
+}
+
+type graffitiCall struct {
+	seq int // when it returned
+	ret []byte
+	err error
 }
 
 type proposalCall struct {
 	seq      int
+	dead     bool
 	opts     api.ProposalOpts
 	returned *api.VersionedProposal // nil if the node failed
 	vals     *bodyVals
@@ -82,6 +90,7 @@ type submitCall struct {
 	version  string
 	wire     string // full container for the version at call time ("" if absent)
 	hasBlind bool   // a blinded container was still attached
+	dead     bool   // called with a context that had already ended (a real client sends nothing)
 }
 
 type world struct {
@@ -93,7 +102,7 @@ type world struct {
 	accountCalls  int
 	accountIdx    [][]uint64
 	randaos       []randaoCall
-	graffitiCalls int
+	graffitis     []graffitiCall
 	auctionCalls  int
 	headCalls     int
 	proposals     []proposalCall
@@ -183,12 +192,15 @@ func (d signerDouble) SignRANDAOReveal(_ context.Context, acc e2wtypes.Account, 
 	return rc.sig, rc.err
 }
 
-func (d signerDouble) SignBeaconBlockProposal(_ context.Context, acc e2wtypes.Account, slot phase0.Slot, index phase0.ValidatorIndex, parent, state, body phase0.Root) (phase0.BLSSignature, error) {
+func (d signerDouble) SignBeaconBlockProposal(ctx context.Context, acc e2wtypes.Account, slot phase0.Slot, index phase0.ValidatorIndex, parent, state, body phase0.Root) (phase0.BLSSignature, error) {
 	w := d.w
 	w.mu.Lock()
 	defer w.mu.Unlock()
 	sc := signCall{seq: w.next(), account: acc, slot: uint64(slot), index: uint64(index), parent: parent, state: state, body: body}
-	if w.c.SignErr {
+	if err := ctx.Err(); err != nil {
+		// a remote signer is not reached with a context that has ended
+		sc.err, sc.dead = err, true
+	} else if w.c.SignErr {
 		sc.err = errors.New("scripted signing failure")
 	} else {
 		fill(sc.sig[:], uint8(sc.seq), 51)
@@ -209,16 +221,33 @@ func (d signerDouble) SignBlobSidecar(_ context.Context, _ e2wtypes.Account, _ p
 
 type graffitiDouble struct{ w *world }
 
-func (d graffitiDouble) Graffiti(_ context.Context, _ phase0.Slot, _ phase0.ValidatorIndex) ([]byte, error) {
+func (d graffitiDouble) Graffiti(ctx context.Context, _ phase0.Slot, _ phase0.ValidatorIndex) ([]byte, error) {
 	w := d.w
-	w.mu.Lock()
-	defer w.mu.Unlock()
-	w.next()
-	w.graffitiCalls++
-	if w.c.Graffiti == "error" {
-		return nil, errors.New("scripted graffiti failure")
+	var gc graffitiCall
+	if w.c.GraffitiDelayMs > 0 {
+		tm := time.NewTimer(time.Duration(w.c.GraffitiDelayMs) * time.Millisecond)
+		select {
+		case <-tm.C:
+		case <-ctx.Done():
+			gc.err = ctx.Err()
+		}
+		tm.Stop()
 	}
-	return append([]byte{}, w.c.GraffitiText...), nil
+	if gc.err == nil {
+		gc.err = ctx.Err()
+	}
+	if gc.err == nil {
+		if w.c.Graffiti == "error" {
+			gc.err = errors.New("scripted graffiti failure")
+		} else {
+			gc.ret = append([]byte{}, w.c.GraffitiText...)
+		}
+	}
+	w.mu.Lock()
+	gc.seq = w.next()
+	w.graffitis = append(w.graffitis, gc)
+	w.mu.Unlock()
+	return gc.ret, gc.err
 }
 
 // ---- execution chain head ----
@@ -238,7 +267,7 @@ func (d headDouble) ExecutionChainHead(_ context.Context) (phase0.Hash32, uint64
 
 type nodeDouble struct{ w *world }
 
-func (d nodeDouble) Proposal(_ context.Context, opts *api.ProposalOpts) (*api.Response[*api.VersionedProposal], error) {
+func (d nodeDouble) Proposal(ctx context.Context, opts *api.ProposalOpts) (*api.Response[*api.VersionedProposal], error) {
 	w := d.w
 	w.mu.Lock()
 	defer w.mu.Unlock()
@@ -246,6 +275,12 @@ func (d nodeDouble) Proposal(_ context.Context, opts *api.ProposalOpts) (*api.Re
 	if opts != nil {
 		pc.opts = *opts
 		pc.opts.BuilderBoostFactor = nil
+	}
+	if err := ctx.Err(); err != nil {
+		// an HTTP client does not send a request whose context has ended
+		pc.dead = true
+		w.proposals = append(w.proposals, pc)
+		return nil, err
 	}
 	if w.c.ProposalErr || opts == nil {
 		w.proposals = append(w.proposals, pc)
@@ -261,7 +296,7 @@ func (d nodeDouble) Proposal(_ context.Context, opts *api.ProposalOpts) (*api.Re
 
 type submitDouble struct{ w *world }
 
-func (d submitDouble) SubmitProposal(_ context.Context, p *api.VersionedSignedProposal) error {
+func (d submitDouble) SubmitProposal(ctx context.Context, p *api.VersionedSignedProposal) error {
 	w := d.w
 	w.mu.Lock()
 	defer w.mu.Unlock()
@@ -273,6 +308,11 @@ func (d submitDouble) SubmitProposal(_ context.Context, p *api.VersionedSignedPr
 			sc.wire = wire(f)
 		}
 		sc.hasBlind = p.BellatrixBlinded != nil || p.CapellaBlinded != nil || p.DenebBlinded != nil
+	}
+	if err := ctx.Err(); err != nil {
+		sc.dead = true
+		w.submits = append(w.submits, sc)
+		return err
 	}
 	w.submits = append(w.submits, sc)
 	if w.c.SubmitErr {
@@ -288,12 +328,15 @@ type auctionDouble struct {
 	results *blockauctioneer.Results
 }
 
-func (d *auctionDouble) AuctionBlock(_ context.Context, _ phase0.Slot, _ phase0.Hash32, _ phase0.BLSPubKey) (*blockauctioneer.Results, error) {
+func (d *auctionDouble) AuctionBlock(ctx context.Context, _ phase0.Slot, _ phase0.Hash32, _ phase0.BLSPubKey) (*blockauctioneer.Results, error) {
 	w := d.w
 	w.mu.Lock()
 	defer w.mu.Unlock()
 	w.next()
 	w.auctionCalls++
+	if err := ctx.Err(); err != nil {
+		return nil, err
+	}
 	if w.c.Auction == "error" {
 		return nil, errors.New("scripted auction failure")
 	}
@@ -396,6 +439,14 @@ func (r *relayDouble) UnblindProposal(ctx context.Context, opts *builderapi.Unbl
 		select {
 		case <-time.After(30 * time.Millisecond):
 		case <-ctx.Done():
+			return fail(ctx.Err())
+		}
+	case "late":
+		tm := time.NewTimer(1300 * time.Millisecond)
+		select {
+		case <-tm.C:
+		case <-ctx.Done():
+			tm.Stop()
 			return fail(ctx.Err())
 		}
 	case "sync":
